@@ -255,6 +255,22 @@ pub fn c01_as(property: &str, subjects: &[Box<dyn Subject>], docs: &[Doc], param
             let reference = run_spec(subject, input, &Spec::oneshot());
             acc.outcome(format!("{}:{}", family_of(subject), reference.end.sig()));
             acc.states += 1;
+            if docs[di].name.starts_with('~') {
+                // lane families (every byte value at every position): what matters is block-wise
+                // versus byte-wise processing, i.e. how much is buffered - uniform grains 1, 3, 8 and
+                // 9 with the default and a small chunk size, and one from_buf_reader start
+                for s in [1usize, 3, 8, 9] {
+                    for chunk in [None, Some(8usize)] {
+                        let spec = Spec::uniform(s, chunk);
+                        let ex = run_spec(subject, input, &spec);
+                        c01_compare(property, subject, input, &reference, &spec, &ex, acc);
+                    }
+                }
+                let spec = Spec::uniform(16, None).via_buf_reader(8);
+                let ex = run_spec(subject, input, &spec);
+                c01_compare(property, subject, input, &reference, &spec, &ex, acc);
+                return;
+            }
             if input.len() <= params.all_len {
                 explore_schedules(subject, input, &Spec::choose(vec![], 1, None), None, acc, |spec, ex, rep| {
                     c01_compare(property, subject, input, &reference, spec, ex, rep)
@@ -273,7 +289,7 @@ pub fn c01_as(property: &str, subjects: &[Box<dyn Subject>], docs: &[Doc], param
                 }
             }
             // construction through from_buf_reader with left-over buffered bytes
-            for (cap, s, chunk) in [(1usize, 1usize, Some(1usize)), (4, 3, Some(2)), (8, 16, None), (64, 2, Some(8))] {
+            for (cap, s, chunk) in [(1usize, 1usize, Some(1usize)), (4, 3, Some(2)), (8, 16, None), (64, 2, Some(8)), (0, 3, None), (0, 1, Some(1)), (1, 2, None)] {
                 let spec = Spec::uniform(s, chunk).via_buf_reader(cap);
                 let ex = run_spec(subject, input, &spec);
                 c01_compare(property, subject, input, &reference, &spec, &ex, acc);
@@ -398,7 +414,17 @@ pub fn c04(subjects: &[Box<dyn Subject>], docs: &[Doc], params: &C04Params, budg
                         }
                     }
                 };
+                let light = docs[di].name.starts_with('~');
                 let mut specs = vec![Spec::oneshot().fault(Some(k))];
+                if light {
+                    // lane families: one-shot and byte-wise delivery of the prefix only
+                    specs.push(Spec::uniform(1, Some(1)).fault(Some(k)));
+                    for spec in &specs {
+                        let ex = run_spec(subject, input, spec);
+                        judge(spec, &ex, acc);
+                    }
+                    continue;
+                }
                 for &s in &params.uni {
                     specs.push(Spec::uniform(s, None).fault(Some(k)));
                     specs.push(Spec::uniform(s, Some(s.max(1))).fault(Some(k)));
@@ -817,7 +843,82 @@ pub fn byte_sweep(doc: &Doc) -> Vec<Doc> {
             if b[k] != m {
                 let mut v = b.clone();
                 v[k] = m;
-                out.push(Doc::new(format!("{}|set@{k}={m:#04x}", doc.name), v));
+                out.push(Doc::new(format!("~{}|set@{k}={m:#04x}", doc.name), v));
+            }
+        }
+    }
+    out
+}
+
+/// Number tokens directly followed by every non-digit byte value: `prefix` + 1..=9 digits (optionally
+/// signed) + b + `suffix`, for all 246 non-digit byte values b. Only blanks and line ends may end a
+/// number; block-wise digit scanners see every byte value in every lane after 1..=9 digits.
+pub fn digit_byte_docs(name: &str, prefix: &[u8], suffix: &[u8], signed: bool) -> Vec<Doc> {
+    let mut out = Vec::new();
+    for k in 1..=9usize {
+        for b in 0..=255u8 {
+            if b.is_ascii_digit() {
+                continue;
+            }
+            for sign in [&b""[..], b"-"] {
+                if !signed && !sign.is_empty() {
+                    continue;
+                }
+                let mut d = prefix.to_vec();
+                d.extend_from_slice(sign);
+                d.extend_from_slice(&b"123456789"[..k]);
+                d.push(b);
+                d.extend_from_slice(suffix);
+                out.push(Doc::new(format!("~{name}|digits{k}+{b:#04x}"), d));
+            }
+        }
+    }
+    out
+}
+
+/// Comment text with every byte value in every lane: `prefix` + 12 filler bytes with byte b at
+/// position k (all b, k) + LF + `suffix`. Block-wise line-end searches see every byte in every lane.
+pub fn comment_byte_docs(name: &str, prefix: &[u8], suffix: &[u8]) -> Vec<Doc> {
+    let mut out = Vec::new();
+    for k in 0..12usize {
+        for b in 0..=255u8 {
+            if b == b'x' {
+                continue;
+            }
+            let mut d = prefix.to_vec();
+            let mut c = vec![b'x'; 12];
+            c[k] = b;
+            d.extend_from_slice(&c);
+            d.push(b'\n');
+            d.extend_from_slice(suffix);
+            out.push(Doc::new(format!("~{name}|comment@{k}={b:#04x}"), d));
+        }
+    }
+    out
+}
+
+/// Long offending tokens for the error-message paths (which quote and truncate what they found):
+/// in every context, a token of `i` ASCII letters followed by a run of 1-, 2-, 3- or 4-byte UTF-8
+/// characters or invalid bytes, with total lengths around the 60-byte quoting limit, so that every
+/// cut position relative to a character boundary occurs.
+pub fn long_token_docs(contexts: &[&[u8]]) -> Vec<Doc> {
+    let fillers: [&[u8]; 6] = [b"a", b"\xff", "\u{e9}".as_bytes(), "\u{2713}".as_bytes(), "\u{1f600}".as_bytes(), b"\xf0\x9f"];
+    let mut out = Vec::new();
+    for ctx in contexts {
+        for i in 0..=4usize {
+            for f in fillers {
+                for target in (18..=24).chain(54..=66) {
+                    let mut t = vec![b'a'; i];
+                    while t.len() < target {
+                        t.extend_from_slice(f);
+                    }
+                    for tail in [&b""[..], b"\n", b" 0\n"] {
+                        let mut d = ctx.to_vec();
+                        d.extend_from_slice(&t);
+                        d.extend_from_slice(tail);
+                        out.push(Doc::new("long-token", d));
+                    }
+                }
             }
         }
     }
